@@ -4,6 +4,7 @@
   acl/commands.go handleSetUser / handleDelUser / handleWhoAmI / handleUsers).
 -/
 import SugarModel.Model.Acl
+import SugarModel.Model.ConnCmd
 namespace Sugar.Acl
 open Sugar
 
@@ -14,6 +15,48 @@ inductive AOut where
   | err (msg : Bytes)
   | panic
   | unmod (why : String)
+
+structure HelloOpts where
+  auth : Option (Bytes × Bytes) := none
+  name : Bytes := []
+
+/-- connection/utils.go:20 getHelloOptions (recursive descent over `AUTH user pass` / `SETNAME name`) -/
+def getHelloOptions : Nat → List Bytes → HelloOpts → Except Bytes (Option HelloOpts)
+  | _, [], o => .ok (some o)
+  | 0, _, _ => .ok none
+  | f + 1, k :: rest, o =>
+    if !isAscii k then .ok none else
+    if toLower k == b "auth" then
+      match rest with
+      | u :: p :: rest' => getHelloOptions f rest' { o with auth := some (u, p) }
+      | _ => .error wrongArgs
+    else if toLower k == b "setname" then
+      match rest with
+      | n :: rest' => getHelloOptions f rest' { o with name := n }
+      | _ => .error wrongArgs
+    else .error (b "unknown keywork " ++ toUpper k)
+
+/-- connection/commands.go:63 handleHello; a successful reply (server and connection info) is `anyOk` -/
+def helloHandler (a : AclState) (cid : Nat) (cmd : List Bytes) (sha : Bytes) : AclState × AOut :=
+  if !([1, 2, 4, 5, 7].contains cmd.length) then (a, .err wrongArgs) else
+  if cmd.length == 1 then (a, .anyOk) else
+  match getHelloOptions (cmd.length + 1) (cmd.drop 2) {} with
+  | .error m => (a, .err m)
+  | .ok none => (a, .unmod "hello option outside ASCII")
+  | .ok (some o) =>
+    match atoiErr (cmd.getD 1 []) with
+    | .err m => (a, .err m)
+    | .unmod w => (a, .unmod w)
+    | .ok proto =>
+      if proto != 2 && proto != 3 then (a, .err (b "protocol must be 2 or 3")) else
+      match o.auth with
+      | none => (a, .anyOk)
+      | some (u, p) =>
+        match authenticate a cid [b "AUTH", u, p] sha with
+        | (a', .ok) => (a', .anyOk)
+        | (a', .err m) => (a', .err m)
+        | (a', .panic) => (a', .panic)
+        | (a', .unmod) => (a', .unmod "auth")
 
 /-- the ACL-related handlers, once the gate has let the command through -/
 def aclHandler (a : AclState) (cid : Nat) (cmd : List Bytes) (sha : Bytes) : AclState × AOut :=
@@ -39,7 +82,8 @@ def aclHandler (a : AclState) (cid : Nat) (cmd : List Bytes) (sha : Bytes) : Acl
     (a, .reply (simpleStr (a.get conn.user).name))
   else if n == b "acl" && sub == b "users" then
     (a, .reply (arrHdr a.order.length ++ (a.users.map fun p => bulkStr p.2.name).flatten))
-  else if n == b "acl" || n == b "hello" then (a, .unmod "acl sub-command not modelled")
+  else if n == b "hello" then helloHandler a cid cmd sha
+  else if n == b "acl" then (a, .unmod "acl sub-command not modelled")
   else (a, .anyOk)
 
 /-- the dispatcher's gate for the command of connection `cid` (sugardb/modules.go:156-162) -/
